@@ -8,7 +8,7 @@
     that the accepted calls are exactly those of the change of the latest valid
     content (one OnCreated / OnUpdated / OnDeleted, or none) and that no other
     source is touched.  [active_of] is what the accepted calls leave loaded. *)
-From HV Require Import Base.Prelude C18.Model C18.ModelBlob C18.Spec C18.Proofs C18.ProofsBlob.
+From HV Require Import Base.Prelude C18.Model C18.ModelBlob C18.ModelK8s C18.Spec C18.Proofs C18.ProofsBlob C18.ProofsK8s.
 
 (** ** What [trace_ok] means (any provider) *)
 
@@ -216,3 +216,26 @@ Theorem C18_blob_F6_refuted :
             active_of (blob_trace O_all 1 true h) (bkey 0 0) = Some 1.
 Proof. exact blob_F6_refuted. Qed.
 Print Assumptions C18_blob_F6_refuted.
+
+(** ** Kubernetes *)
+
+(** all watch histories that are well formed ([k8s_wf]: a Deleted event carries the
+    object's last auth class; for an object staying in the provider's class the
+    generation changes exactly when the rules change).  The provider keeps no
+    record of what it applied and relies on the processor's idempotent
+    operations, so its trace is read modulo calls that change nothing
+    ([norm_trace]: an update of something not loaded is a creation, a deletion of
+    something not loaded and an update to the loaded content are dropped). *)
+Theorem C18_k8s_all_histories : forall O,
+  (forall s, deletable O s = true) ->
+  forall h, k8s_wf h = true -> trace_ok (accepts O) (norm_trace (k8s_raw_trace O h)) = true.
+Proof. exact k8s_trace_ok. Qed.
+Print Assumptions C18_k8s_all_histories.
+
+(** and what the provider's actual (un-normalised) calls leave loaded is the latest valid content seen *)
+Theorem C18_k8s_converges : forall O,
+  (forall s, deletable O s = true) ->
+  forall h u, k8s_wf h = true ->
+  active_of (k8s_raw_trace O h) (Sid u) = latest_valid (accepts O) (seen_of (k8s_raw_trace O h) (Sid u)).
+Proof. exact k8s_converges. Qed.
+Print Assumptions C18_k8s_converges.
